@@ -186,6 +186,14 @@ def case_setup(p):
             items = [(hap.T_STATE, b"\x04"), (hap.T_PROOF, b"")]
         elif fault == "m4-proof-trunc":
             items = [(hap.T_STATE, b"\x04"), (hap.T_PROOF, proof[:arg])]
+        elif fault == "m4-mfi-wire-trunc":
+            # an accessory with an authentication coprocessor appends its MFi proof (about 900 bytes of EncryptedData) to M4; the message is cut
+            # `arg` bytes short (inside that last item, on a fragment boundary, inside the proof): a truncated message fails, whatever was cut
+            wire = tlv8.encode([(hap.T_STATE, b"\x04"), (hap.T_PROOF, proof), (hap.T_ENC, C.det_bytes(run.seed, "mfi", 900))])
+            raw, ok = __import__("vt.ref.tlv8", fromlist=["x"]).parse_raw(wire[: len(wire) - arg])
+            if ok:
+                return []  # the cut fell between two items: what is left is a complete (shorter) message, judged by the other M4 faults
+            return must_raise(run.feed(wire[: len(wire) - arg]), "truncated-m4-accepted:cut-inside-the-trailing-encrypted-data-item" if arg < 900 else "truncated-m4-accepted")
         elif fault == "m4-proof-tail":
             items = [(hap.T_STATE, b"\x04"), (hap.T_PROOF, proof[-arg:])]
             if not any(proof[:-arg]):
@@ -409,6 +417,7 @@ def run(ctx):
         errs = [b"\x00", b"\x01", b"\x02", b"\x08", b"\x12", b"\x42", b"\x82", b"\xff", b"", b"\x02\x00"]
         fl += [(f"{m}-error-extra", e) for m in ("m2", "m4", "m6") for e in errs]
         fl += [("m4-proof-trunc", n) for n in (1, 32, 63)] + [("m4-proof-tail", n) for n in (1, 2, 32, 63)]
+        fl += [("m4-mfi-wire-trunc", n) for n in ((1, 2, 3, 40, 135, 136, 137, 390, 391, 392, 600, 899, 905, 915, 940) if quick else tuple(range(1, 975)))]
         fl += [("wrongcode", c) for c in ("111-22-334", "000-00-001", "11122333")]
         fl += [("m6-wire-bitflip", b) for b in bitsel(m6len * 8)]
         fl += [("m6-trunc", n) for n in (range(0, m6len, 5) if quick else range(m6len))]
